@@ -531,32 +531,107 @@ def replay_misc_generators():
     return False
 
 
-def ob_context_refuses_salt():
-    from passlib.context import CryptContext
-    bad = []
-    for kw in ({"sha256_crypt__salt": "abcd"}, {"all__salt": "abcd"}, {"admin__sha256_crypt__salt": "abcd"},
-               {"md5_crypt__salt": "abcd"}, {"admin__context__salt": "x"}):
-        try:
-            CryptContext(schemes=["sha256_crypt", "md5_crypt"], **kw)
-            bad.append(kw)
-        except (KeyError, ValueError, TypeError):
-            pass
-    if bad:
-        return violation("CryptContext accepts a pinned salt: %r" % bad, "context:salt",
-                         {"module": "harness.c06", "func": "replay_context_salt", "args": {}})
-    return ok("5 spellings of a configured salt refused", paths=5, verdict="finite-exhaustive")
-
-
 def replay_context_salt():
+    """no route lets a configuration pin a salt: every spelling (global, per scheme, per category, 'all'), every value type
+    (text, bytes) and every way in (constructor, update, load, copy, INI text); and hashes made through the context differ"""
+    import warnings
     from passlib.context import CryptContext
-    for kw in ({"sha256_crypt__salt": "abcd"}, {"all__salt": "abcd"}, {"admin__sha256_crypt__salt": "abcd"},
-               {"md5_crypt__salt": "abcd"}):
-        try:
-            ctx = CryptContext(schemes=["sha256_crypt", "md5_crypt"], **kw)
-        except (KeyError, ValueError, TypeError):
-            continue
-        return "context accepts %r" % kw
+    warnings.simplefilter("ignore")
+    base = dict(schemes=["sha256_crypt", "md5_crypt", "pbkdf2_sha256"], sha256_crypt__rounds=1000, pbkdf2_sha256__rounds=1)
+    for val in ("abcd", b"abcd", "abcdefgh", b"0123456789abcdef"):
+        for key in ("sha256_crypt__salt", "all__salt", "admin__sha256_crypt__salt", "md5_crypt__salt", "pbkdf2_sha256__salt",
+                    "admin__all__salt", "admin__pbkdf2_sha256__salt"):
+            routes = {
+                "constructor": lambda: CryptContext(**dict(base, **{key: val})),
+                "update": lambda: (lambda c: (c.update(**{key: val}), c)[1])(CryptContext(**base)),
+                "load": lambda: (lambda c: (c.load(dict(base, **{key: val})), c)[1])(CryptContext()),
+                "copy": lambda: CryptContext(**base).copy(**{key: val}),
+            }
+            for rname, mk in sorted(routes.items()):
+                try:
+                    ctx = mk()
+                except (KeyError, ValueError, TypeError):
+                    continue
+                # accepted: then at least it must not pin anything
+                for scheme in ("sha256_crypt", "md5_crypt", "pbkdf2_sha256"):
+                    for cat in (None, "admin"):
+                        hs = set(ctx.hash("pw", scheme=scheme, category=cat) for _ in range(3))
+                        if len(hs) == 1:
+                            return "CryptContext %s with %s=%r pins the salt: three %s hashes (category %r) are identical" % (rname, key, val, scheme, cat)
+                return "CryptContext %s accepts the salt option %s=%r" % (rname, key, val)
     return False
+
+
+def ob_context_refuses_salt():
+    r = replay_context_salt()
+    if r:
+        return violation("%s" % r, "context:salt", {"module": "harness.c06", "func": "replay_context_salt", "args": {}})
+    return ok("a configured salt is refused: 7 spellings x text/bytes values x constructor/update/load/copy", paths=7 * 4 * 4,
+              verdict="finite-exhaustive")
+
+
+# ------------------------------------------------------------------ generated passwords / phrases
+def replay_pwd():
+    """passlib.pwd: length x log2(alphabet) >= requested entropy (exact integer arithmetic) for every preset and every requested
+    entropy 1..160; an alphabet with repeated symbols is refused on EVERY call; every symbol comes from one uniform choice"""
+    import random
+    import passlib.pwd as PW
+    charsets = ["ascii_72", "ascii_62", "ascii_50", "hex"]
+    for cs in charsets:
+        for ent in list(range(1, 161)):
+            g = PW.WordGenerator(entropy=ent, charset=cs)
+            n = len(set(g.chars))
+            if n != len(g.chars):
+                return "charset %s has repeated symbols" % cs
+            if n ** g.length < 2 ** ent:
+                return "genword(entropy=%d, charset=%s): %d symbols over %d characters carry less than %d bits" % (ent, cs, g.length, n, ent)
+            if g.length > 1 and n ** (g.length - 1) >= 2 ** ent and ent >= 1:
+                return "genword(entropy=%d, charset=%s): longer than needed (%d symbols)" % (ent, cs, g.length)
+            w = g()
+            if len(w) != g.length or not set(w) <= set(g.chars):
+                return "genword(entropy=%d, charset=%s) returned %r" % (ent, cs, w)
+    for ws in ("eff_long", "eff_short", "eff_prefixed", "bip39"):
+        for ent in (1, 10, 11, 12, 13, 42, 64, 100):
+            g = PW.PhraseGenerator(entropy=ent, wordset=ws)
+            n = len(set(g.words))
+            if n != len(g.words):
+                return "wordset %s has repeated words" % ws
+            if n ** g.length < 2 ** ent:
+                return "genphrase(entropy=%d, wordset=%s): %d words of %d carry less than %d bits" % (ent, ws, g.length, n, ent)
+    # explicit length and entropy together: the larger requirement wins
+    g = PW.WordGenerator(entropy=40, length=3, chars="abcdefgh")
+    if 8 ** g.length < 2 ** 40:
+        return "genword(entropy=40, length=3): %d symbols" % g.length
+    # repeated symbols / words: refused, also the second and third time with the very same object
+    for k in range(3):
+        for mk in (lambda: PW.genword(chars="aaaaaaab", entropy=40), lambda: PW.genphrase(words=("x", "y", "x", "z"), entropy=20),
+                   lambda: PW.genword(chars="abca", entropy=8)):
+            try:
+                out = mk()
+            except (ValueError, TypeError):
+                continue
+            return "call #%d: a generator over an alphabet with repeated symbols is accepted (returned %r)" % (k + 1, out)
+    # one draw per symbol through getrandstr-like uniform choice: recorded on a stub rng
+    asked = []
+
+    class R(random.Random):
+        def randrange(self, a, b=None, *x):
+            asked.append((a, b))
+            return 0
+    g = PW.WordGenerator(entropy=30, chars="abcdefghij", rng=R(1))
+    g()
+    if not asked:
+        return "genword does not draw from the generator's rng"
+    return False
+
+
+def ob_pwd():
+    r = replay_pwd()
+    if r:
+        return violation("passlib.pwd: %s" % r, "pwd", {"module": "harness.c06", "func": "replay_pwd", "args": {}})
+    return ok("generated passwords/phrases: alphabet^length >= 2^entropy for 4 charsets x entropy 1..160 and 4 wordsets x 8 entropies "
+              "(exact integers), minimal length, repeated symbols refused on every call, symbols drawn from the generator's rng",
+              paths=4 * 160 + 32, verdict="finite-exhaustive", nontrivial=False)
 
 
 def ob_libpass_salt():
@@ -586,7 +661,7 @@ def replay_libpass_salt():
 
 # ------------------------------------------------------------------ driver
 def run(tier, seed, t0, only=None):
-    obs = []
+    obs = [Ob("generated-passwords", ob_pwd, timeout=600)]
     ns = list(range(1, 17)) + [20, 24, 32, 48, 64] if tier == "quick" else list(range(1, 65)) + [128, 256]
     for n in ns:
         obs.append(Ob("getrandbytes[n=%d]" % n, ob_getrandbytes, {"n": n}, timeout=120))
